@@ -152,6 +152,23 @@ func TestVerifC10(t *testing.T) {
 	res.RequireObs("boundary_lengths_probed", 40)
 }
 
+// pickModes chooses a source behaviour and a read-buffer regime. Feeding a
+// token of tens of KiB a few bytes at a time makes the tokenizer re-copy the
+// token on every refill (quadratic, and costly under -race), so for documents
+// over 20 KB the byte-at-a-time regimes are used only when slowOK.
+func pickModes(r *vlib.Rand, docLen int, slowOK bool) (srcMode, int) {
+	sm, rb := smodes[r.Intn(len(smodes))], r.PickInt(rbufs)
+	if docLen > 20000 && !slowOK {
+		if rb >= 1 && rb <= 5 {
+			rb = r.PickInt([]int{4095, 4096, 0})
+		}
+		if sm.maxRead > 0 && sm.maxRead < 8 {
+			sm = smodes[r.PickInt([]int{0, 3, 4, 5})]
+		}
+	}
+	return sm, rb
+}
+
 // ---- 1+2. round trip and structure -----------------------------------------
 
 func (h *H) roundTrips(root *vlib.Rand, refHead, refTail []byte) {
@@ -176,17 +193,7 @@ func (h *H) roundTrips(root *vlib.Rand, refHead, refTail []byte) {
 			wm, rb, sm := "whole", 65536, smodes[0]
 			if ci > 0 {
 				wm = cr.PickString(wmodes)
-				rb = cr.PickInt(rbufs)
-				sm = smodes[cr.Intn(len(smodes))]
-				if sc.n > 20000 && !cr.Chance(1, 4) {
-					// byte-at-a-time over 100 KB documents: only sometimes
-					if rb >= 1 && rb <= 5 {
-						rb = 4095
-					}
-					if sm.maxRead > 0 && sm.maxRead < 8 {
-						sm = smodes[3]
-					}
-				}
+				sm, rb = pickModes(cr, sc.n, ci == 1 && si%16 == 0)
 			} else if sc.n <= 100 {
 				// the plain combination is the existing test; vary it by size instead
 				wm = wmodes[sc.n%len(wmodes)]
@@ -290,18 +297,6 @@ func (h *H) metamorphic(root *vlib.Rand) {
 		if n > 20000 {
 			nVar = 4
 		}
-		pick := func(vr *vlib.Rand) (srcMode, int) {
-			sm, rb := smodes[vr.Intn(len(smodes))], vr.PickInt(rbufs)
-			if n > 20000 {
-				if rb >= 1 && rb <= 5 {
-					rb = 4096
-				}
-				if sm.maxRead > 0 && sm.maxRead < 8 {
-					sm = smodes[0]
-				}
-			}
-			return sm, rb
-		}
 		verdict := func(sig string, rc rec, doc []byte, o decOut) bool {
 			if o.undecided() {
 				return false
@@ -318,7 +313,7 @@ func (h *H) metamorphic(root *vlib.Rand) {
 			vr := r.SplitN("ws", vi)
 			style := wsStyles[(pi+vi)%len(wsStyles)]
 			doc, used, maxText := rewriteWS(a, vr.Split("rewrite"), style)
-			sm, rb := pick(vr)
+			sm, rb := pickModes(vr, len(doc), false)
 			id := fmt.Sprintf("meta/%d/ws/%d", pi, vi)
 			rc := base.with("case", id, "style", style, "max_element_text", maxText, "source", sm.name, "read_buf", rb)
 			res.Obs("meta_whitespace_cases", 1)
@@ -342,7 +337,7 @@ func (h *H) metamorphic(root *vlib.Rand) {
 			vr := r.SplitN("mk", vi)
 			dense := vi == 0 && len(pts) <= 40
 			doc, kinds, where := insertMarkup(armor, pts, vr.Split("ins"), dense)
-			sm, rb := pick(vr)
+			sm, rb := pickModes(vr, len(doc), pi%12 == 0 && vi == 1)
 			id := fmt.Sprintf("meta/%d/markup/%d", pi, vi)
 			rc := base.with("case", id, "snippet_kinds", kinds, "offsets", where, "source", sm.name, "read_buf", rb)
 			res.Obs("meta_markup_cases", 1)
@@ -368,7 +363,7 @@ func (h *H) metamorphic(root *vlib.Rand) {
 				continue
 			}
 			doc, kinds, where := insertMarkup(doc1, insertionPoints(a1), vr.Split("ins"), false)
-			sm, rb := pick(vr)
+			sm, rb := pickModes(vr, len(doc), false)
 			id := fmt.Sprintf("meta/%d/both/%d", pi, vi)
 			rc := base.with("case", id, "style", style, "snippet_kinds", kinds, "offsets", where, "source", sm.name, "read_buf", rb)
 			res.Obs("meta_combined_cases", 1)
@@ -442,7 +437,7 @@ func (h *H) boundaryProbe(root *vlib.Rand, refHead, refTail []byte) {
 func (h *H) errorClasses(root *vlib.Rand, refHead, refTail []byte) {
 	res := h.res
 	per := vlib.Scale(60, 2500)
-	for ci, class := range errClasses {
+	for _, class := range errClasses {
 		n := per
 		if class == "oversized-element" {
 			n = vlib.Scale(24, 300)
@@ -453,10 +448,7 @@ func (h *H) errorClasses(root *vlib.Rand, refHead, refTail []byte) {
 			}
 			r := root.SplitN("defect-"+class, i)
 			d, payload := genDefect(r.Split("gen"), class, refHead, refTail)
-			sm, rb := smodes[r.Intn(len(smodes))], r.PickInt(rbufs)
-			if len(d.doc) > 20000 {
-				sm, rb = smodes[(i+ci)%2*3], 4096 // full or chunk33
-			}
+			sm, rb := pickModes(r, len(d.doc), false)
 			id := fmt.Sprintf("defect/%s/%d", class, i)
 			rc := mkrec(id, "class", class, "variant", d.variant, "payload_len", len(payload), "doc", docField(d.doc), "source", sm.name, "read_buf", rb)
 			o := h.decodeBytes(id, rc, d.doc, sm, rb, r.Split("d"))
@@ -489,7 +481,7 @@ func (h *H) errorClasses(root *vlib.Rand, refHead, refTail []byte) {
 func (h *H) hostile(root *vlib.Rand) {
 	res := h.res
 	run := func(id, kind string, doc []byte, r *vlib.Rand) {
-		sm, rb := smodes[r.Intn(len(smodes))], r.PickInt(rbufs)
+		sm, rb := pickModes(r, len(doc), false)
 		rc := mkrec(id, "kind", kind, "doc", docField(doc), "source", sm.name, "read_buf", rb)
 		o := h.decodeBytes(id, rc, doc, sm, rb, r.Split("d"))
 		if o.undecided() {
